@@ -311,7 +311,7 @@ def run(tier):
     nb = 160 if thorough else 24
     for cfg, classes in (("Seq_sim", ["SE3"]), ("Seq_sim_rot", ["SO3", "UnitQuaternion"]),
                          ("Seq_sim_planar", ["SE2"]), ("Seq_sim_planar_rot", ["SO2"])):
-        rq = run_tlc("MC_Seq", cfg, tag="C02_" + cfg, workers=4, simulate=max(1, nb // 4), depth=40,
+        rq = run_tlc("MC_Seq", cfg, tag="C02_" + cfg, workers=1, simulate=nb, depth=40,
                      seed_=common.seed() + 29, timeout=900)
         if len(rq.json) < nb // 2:
             raise MachineryError("sequence machine produced %d behaviours" % len(rq.json))
